@@ -134,22 +134,6 @@ def run(c):
     if any(t[2] == "badevent" for _, t in mism + dmism):
         raise Infra("trace spec could not interpret an event (table/driver plumbing): %r" % ([x for x in mism + dmism if x[1][2] == "badevent"][:3],))
 
-    # binding self-test: corrupted observations in real events must be rejected at exactly those events
-    sl = list(events[:300]); ks = []
-    for k, fld in ((100, "qoct"), (200, "g1")):
-        ce = json.loads(sl[k])
-        if fld == "qoct" and ce["qoct"]: ce["qoct"][-1] ^= 4
-        elif ce["g1"] >= 0: ce["g1"] ^= 1
-        elif ce["gs1"]: ce["gs1"][0] ^= 1
-        else: continue
-        sl[k] = json.dumps(ce); ks.append(k)
-    pre = {i for i, _ in mism if i < 300}
-    bm = c.validate("Trace_C09", sl, shards=1)
-    c.cov["traces_validated_against_impl"] -= len(sl)
-    if {i for i, _ in bm} != pre | set(ks) or not ks:
-        raise Infra("binding self-test failed: corrupted events %r, TLC rejected %r (before: %r)" % (ks, [i for i, _ in bm], sorted(pre)))
-    c.cov["binding_selftest"] = "one bit of the logged contents / getter result of %d real events corrupted: rejected by TLC at exactly those events" % len(ks)
-
     def case_of(e):
         kind = tab["types"][e["ti"] - 1]["fields"][e["fi"] - 1]["kind"]
         val = e["vs"] if kind in ("array", "slice") else e["v"]
@@ -238,6 +222,30 @@ def run(c):
             c.note("%d digest(s) differed but no element of the expanded chunks did (not reproduced)" % len(expand))
         batch_triage(xev, xm)
     c.cov["mismatch_classes"] = {"%s/%s" % k: v for k, v in seen.items() if v > 0}
+
+    # ---- binding self-test, AFTER the verdict phase and never in its way: observations of events that validated
+    # cleanly are corrupted; TLC must reject exactly those and keep accepting the untouched ones
+    if c.violations:
+        c.cov["binding_selftest"] = "skipped: the run has violations"
+    else:
+        badidx = {i for i, _ in mism}
+        sl = [events[i] for i in range(len(events)) if i not in badidx][:300]; ks = []
+        for k, fld in ((100, "qoct"), (200, "g1")):
+            if k >= len(sl): continue
+            ce = json.loads(sl[k])
+            if fld == "qoct" and ce["qoct"]: ce["qoct"][-1] ^= 4
+            elif ce["g1"] >= 0: ce["g1"] ^= 1
+            elif ce["gs1"]: ce["gs1"][0] ^= 1
+            else: continue
+            sl[k] = json.dumps(ce); ks.append(k)
+        if not ks:
+            c.note("binding self-test skipped: no suitable clean events")
+        else:
+            bm = sorted(i for i, _ in c.validate("Trace_C09", sl, shards=1))
+            c.cov["traces_validated_against_impl"] -= len(sl)
+            if bm != ks:
+                raise Infra("binding self-test failed: corrupted clean events %r, TLC rejected %r" % (ks, bm))
+            c.cov["binding_selftest"] = "one bit of the logged contents / getter result of %d cleanly validated real events corrupted: rejected by TLC at exactly those events, the other %d stay accepted" % (len(ks), len(sl) - len(ks))
 
     # ---- coverage
     import hashlib, re
